@@ -18,7 +18,8 @@ from .smt import slen, sat, isb, Verdict
 class NS(object):
     """Namespace handed to requires/ensures/invariant lambdas."""
 
-    def __init__(self, ex, st, fr, old=None, idx=None, result=None, exc=None):
+    def __init__(self, ex, st, fr, old=None, idx=None, result=None, exc=None, assume=False):
+        object.__setattr__(self, '_assume', assume)     # True: the formula is being assumed at a call site
         object.__setattr__(self, '_ex', ex)
         object.__setattr__(self, '_st', st)
         object.__setattr__(self, '_fr', fr)
@@ -233,6 +234,11 @@ class Contract(object):
                 st.assume(z3.Not(truthy(_lift(c(ns_pre)))))
             if ex.feasible(s2):
                 self._havoc(ex, s2, env)
+                if self.exc_ensures is not None:
+                    # the callee's exceptional postcondition (proved on every raising path of its body)
+                    xv = s2.fork()
+                    xv.env = dict(env)
+                    s2.assume(truthy(_lift(self.exc_ensures(NS(ex, xv, fr, old=cst, assume=True)))))
                 outs.append(Outcome('raise', s2, VExc(cls, [], 'call %s line %d' % (self.name, line))))
         # normal outcome
         post = st.fork()
@@ -244,7 +250,7 @@ class Contract(object):
         res = self.result.make('ret_' + self.name, cst2, ex.bv) if self.result is not None else VNone()
         post.pc = cst2.pc
         if self.ensures is not None:
-            ns = NS(ex, cst2, fr, old=cst, result=res)
+            ns = NS(ex, cst2, fr, old=cst, result=res, assume=True)
             post.assume(truthy(_lift(self.ensures(ns))))
         post.heap = cst2.heap
         post.events.append((self.qual, args, res))
@@ -316,16 +322,58 @@ def expand_goal(g, positive=True):
 
 
 EXT_FUNCS = []      # (function, [sorts], seq-arg-position) registered by models/specs
+EXT_PAIRS = []      # (f_name, pos, g_name): argument of f may be extensionally a g-term (inverse pairs)
 
 
 def ext_axioms(formulas=()):
-    return smt.ext_instances(formulas, EXT_FUNCS)
+    return (smt.ext_instances(formulas, EXT_FUNCS) + smt.seq_eq_atoms_witnesses(formulas)
+            + smt.ext_pair_instances(formulas, EXT_PAIRS))
+
+
+def _conjuncts(g):
+    if z3.is_app(g) and g.decl().kind() == z3.Z3_OP_AND:
+        out = []
+        for ch in g.children():
+            out.extend(_conjuncts(ch))
+        return out
+    return [g]
+
+
+SPLIT_AT = 8        # goals with at least this many top-level conjuncts are discharged conjunct by conjunct
+
+
+def _solve_split(ob, parts, ext, budget_ms):
+    """Prove a conjunction conjunct by conjunct (same assumptions).  Sound: the goal holds iff every conjunct
+    holds; a model refuting one conjunct refutes the goal."""
+    total = 0.0
+    backends = set()
+    for part in parts:
+        if z3.is_true(part):
+            continue
+        v, model, info = smt.solve(ob.pc, part, timeout_ms=budget_ms, extra_axioms=ext)
+        total += info.get('s', 0)
+        backends.add(info.get('backend') or '?')
+        if v != Verdict.PROVED:
+            info = dict(info)
+            info['s'] = total
+            info['backend'] = '%s(split)' % info.get('backend')
+            return v, model, info
+    return Verdict.PROVED, None, {'backend': '+'.join(sorted(backends)) + '(split %d)' % len(parts), 's': total}
 
 
 def discharge(c, ob, budget_ms):
     goal = expand_goal(ob.goal)
     try:
-        verdict, model, info = smt.solve(ob.pc, goal, timeout_ms=budget_ms, extra_axioms=ext_axioms(list(ob.pc) + [goal]))
+        ext = ext_axioms(list(ob.pc) + [goal])
+        parts = _conjuncts(goal)
+        if len(parts) >= SPLIT_AT:
+            verdict, model, info = _solve_split(ob, parts, ext, budget_ms)
+        else:
+            verdict, model, info = smt.solve(ob.pc, goal, timeout_ms=budget_ms, extra_axioms=ext)
+            if verdict == Verdict.UNDECIDED and len(parts) > 1:
+                v2, m2, i2 = _solve_split(ob, parts, ext, budget_ms)
+                if v2 != Verdict.UNDECIDED:
+                    verdict, model, info = v2, m2, i2
     except z3.Z3Exception as e:
         verdict, model, info = Verdict.UNDECIDED, None, {'backend': 'z3', 's': 0, 'reason': 'z3 error: %s' % e}
     m = None
